@@ -181,12 +181,13 @@ def gen_block_body(r: random.Random, indent="    "):
             # strings spanning three or more lines; inner lines keep their own (smaller) indentation
             inner = r.choice([["two", "three"], ["  two", "", "three"], ["two {y}", "\tthree", "four"]])
             q = "f" if t.startswith("f") else ""
-            lines.append(indent * (1 + level) + f"s = {q}\'\'\'one")
+            lead = r.choice(["s = ", "s = ", ""])  # "" : the string is the FIRST token of its line (a docstring)
+            lines.append(indent * (1 + level) + f"{lead}{q}\'\'\'one")
             lines.extend(inner)
             lines.append(r.choice(["", " ", indent * (1 + level)]) + "last\'\'\'" + r.choice(["", " ; after = 1"]))
             continue
         if t in ("'''multi", "a = (1,", "return ["):
-            t = {"'''multi": "s = '''multi\nline'''", "a = (1,": "a = (1,\n 2)", "return [": "q = [\n]"}[t]
+            t = {"'''multi": r.choice(["s = '''multi\nline'''", "'''doc\nstring'''", "f'''doc {d}\nstring''' ; e = 1"]), "a = (1,": "a = (1,\n 2)", "return [": "q = [\n]"}[t]
         if t in ("  odd indent", "\tTabbed"):
             t = "z = 3"
         for sub in t.split("\n"):
